@@ -171,6 +171,16 @@ CHECKS.update({
             "tag-flipped and foreign-key forgeries and Echo variants, for windows 2 and 32, initialised and uninitialised: accepted at most "
             "once, old numbers refused, fresh numbers accepted, forgeries never move the window, nothing accepted before the right Echo.",
             "Trusted: as C11.", "DESIGN.md 6/C12"),
+    "C13": ("fault_enumeration", "crash-point enumeration: every history is re-run once per (file-system effect, crash mode) with the process dying there, then reloaded and continued",
+            "A real FilesystemSecurityContext on a scratch directory, with aiocoap.oscore's os / tempfile / io replaced by recording proxies "
+            "that number every effect (lock creation aside: mkstemp, write incl. a half-written variant, flush, fsync, close, replace, "
+            "unlink): all histories up to length 2-3 (+4 fixed closing operations) over protect / accept n / accept with fresh Echo / "
+            "respond twice / clean stop+reload / stray temp file, for chunk sizes start {1,2,3,10} x limit {4,10000}, long runs across "
+            "several chunk boundaries, and exhaustion histories from 2^40-4..2^40-1. Across all lifetimes of a history: no (key, nonce) "
+            "pair encrypts twice, sender numbers strictly increase and are never re-issued, none reaches 2^40-1, a request accepted in "
+            "any lifetime is never accepted again, fresh requests are accepted after a clean stop and after a fresh Echo.",
+            "Trusted: as C11 plus the process-death crash model (completed file operations persist; no power-loss semantics, no I/O errors).",
+            "DESIGN.md 6/C13"),
     "C14": ("model_checking", E2,
             "Scripted submissions of CON/NON requests to two peers; the monitor rebuilds open-exchange/backlog state per remote from the "
             "wire and the applied events: never two open CON exchanges per remote, FIFO release in the very step the exchange ahead ends, "
